@@ -4,6 +4,7 @@ import Mathlib.Tactic.Linarith
 import Mathlib.Tactic.FieldSimp
 import Mathlib.Tactic.Ring
 import Mathlib.Tactic.Push
+import Mathlib.Tactic.LinearCombination
 /-! Specification predicates and helper lemmas for C09 (`Model/Match.lean`). -/
 namespace HdVerif.Match
 open HdVerif HdVerif.Gen
@@ -879,7 +880,7 @@ structure AxisOK (pl : AxisPlan) (s step no ni : Int) (rc rp : Bool) : Prop wher
   crop_mono : rc = true → pl.requiresCrop = true
 
 theorem mgCropPad_axisOK (s : Int) (sp : Rat) (hsp : sp ≠ 0) (step no ni : Int) (hstep : step ≠ 0) (hno : 1 ≤ no)
-    (hni : 1 ≤ ni) (tol : Rat) (htol : 0 ≤ tol) (rc rp : Bool) :
+    (tol : Rat) (htol : 0 ≤ tol) (rc rp : Bool) :
     ∃ r, mgCropPad ((s : Rat) * sp) sp step no ni tol rc rp = .ok r ∧ AxisOK (planOf r) s step no ni rc rp := by
   rcases lt_or_gt_of_ne hstep with hneg | hpos
   · refine ⟨_, mgCropPad_neg s sp hsp step no ni hneg tol htol rc rp, ?_⟩
@@ -916,5 +917,524 @@ theorem mgCropPad_axisOK (s : Int) (sp : Rat) (hsp : sp ≠ 0) (step no ni : Int
       subst this
       omega
     · simp only [planOf]; intro h; simp [h]
+
+/-! ## completeness: alignment of a reachable target -/
+
+
+/-- well-formed geometry: orthonormal unit vectors, positive spacings -/
+structure WF (g : Geom) : Prop where
+  orth : ∀ a b, V3.dot (g.dir a) (g.dir b) = if a = b then 1 else 0
+  spacing_pos : ∀ a, 0 < g.spacing a
+
+theorem dot_neg_left (a b : V3) : V3.dot (V3.neg a) b = -(V3.dot a b) := by
+  simp only [V3.dot, V3.neg]; ring
+
+theorem natAbs_sign (st : Int) : (if st < 0 then (-1 : Int) else 1) * (st.natAbs : Int) = st := by
+  split <;> omega
+
+theorem alignAxis_reach (src : Geom) (hwf : WF src) (j : Ax) (st : Int) (hst : st ≠ 0) (tol : Rat) (h0 : 0 < tol)
+    (h1 : tol ≤ 1) :
+    alignAxis src (if st < 0 then V3.neg (src.dir j) else src.dir j) (src.spacing j * ((st.natAbs : Int) : Rat)) tol
+      = .ok (j, st) := by
+  have hdot : ∀ a, V3.dot (if st < 0 then V3.neg (src.dir j) else src.dir j) (src.dir a) =
+      if j = a then (((if st < 0 then (-1 : Int) else 1) : Int) : Rat) else 0 := by
+    intro a
+    by_cases hs : st < 0 <;> by_cases hja : j = a <;> simp [hs, hja, dot_neg_left, hwf.orth]
+  have hm : 1 ≤ ((st.natAbs : Int)) := by omega
+  have hσ : (if st < 0 then (-1 : Int) else 1) = 1 ∨ (if st < 0 then (-1 : Int) else 1) = -1 := by
+    split <;> simp
+  have hpar := mgAlign_par (if st < 0 then (-1 : Int) else 1) hσ (st.natAbs : Int) hm (src.spacing j) tol
+    (ne_of_gt (hwf.spacing_pos j)) h0
+  rw [natAbs_sign, mul_comm] at hpar
+  unfold alignAxis
+  rcases ax_cases j with rfl | rfl | rfl
+  · rw [hdot 0, if_pos rfl, hpar]
+  · rw [hdot 0, if_neg (by decide), mgAlign_orth _ _ _ h1]
+    simp only []
+    rw [hdot 1, if_pos rfl, hpar]
+  · rw [hdot 0, if_neg (by decide), mgAlign_orth _ _ _ h1]
+    simp only []
+    rw [hdot 1, if_neg (by decide), mgAlign_orth _ _ _ h1]
+    simp only []
+    rw [hdot 2, if_pos rfl, hpar]
+
+theorem dot_toRef_sub (G : Geom) (hwf : WF G) (x : Ax → Rat) (i : Ax) :
+    V3.dot (G.dir i) (V3.sub (G.toRef x) G.pos) = x i * G.spacing i := by
+  have h0 := hwf.orth i 0
+  have h1 := hwf.orth i 1
+  have h2 := hwf.orth i 2
+  simp only [V3.dot] at h0 h1 h2
+  simp only [V3.dot, V3.sub, Geom.toRef, Geom.col, V3.add, V3.smul]
+  rcases ax_cases i with rfl | rfl | rfl
+  · simp at h0 h1 h2
+    linear_combination (x 0 * G.spacing 0) * h0 + (x 1 * G.spacing 1) * h1 + (x 2 * G.spacing 2) * h2
+  · simp at h0 h1 h2
+    linear_combination (x 0 * G.spacing 0) * h0 + (x 1 * G.spacing 1) * h1 + (x 2 * G.spacing 2) * h2
+  · simp at h0 h1 h2
+    linear_combination (x 0 * G.spacing 0) * h0 + (x 1 * G.spacing 1) * h1 + (x 2 * G.spacing 2) * h2
+
+
+
+/-- the permuted geometry (what `permuteGeom` returns for a permutation) -/
+def permuted (g : Geom) (p : Ax → Ax) : Geom :=
+  { g with dir := fun i => g.dir (p i), spacing := fun i => g.spacing (p i), shape := fun i => g.shape (p i) }
+
+theorem permuteGeom_eq (g : Geom) (p : Ax → Ax) (hp : isPerm p = true) : permuteGeom g p = .ok (permuted g p) := by
+  unfold permuteGeom permuted; rw [if_pos hp]
+
+theorem isPerm_inj (p : Ax → Ax) (hp : isPerm p = true) (a b : Ax) : p a = p b ↔ a = b := by
+  rcases isPerm_cases p hp with ⟨h0, h1, h2⟩ | ⟨h0, h1, h2⟩ | ⟨h0, h1, h2⟩ | ⟨h0, h1, h2⟩ | ⟨h0, h1, h2⟩ | ⟨h0, h1, h2⟩ <;>
+    rcases ax_cases a with rfl | rfl | rfl <;> rcases ax_cases b with rfl | rfl | rfl <;> simp [h0, h1, h2]
+
+theorem WF.permuted {g : Geom} (hwf : WF g) (p : Ax → Ax) (hp : isPerm p = true) : WF (permuted g p) := by
+  refine ⟨fun a b => ?_, fun a => hwf.spacing_pos (p a)⟩
+  simp only [Match.permuted]
+  rw [hwf.orth]
+  by_cases hab : a = b
+  · simp [hab]
+  · have : ¬ p a = p b := fun h => hab ((isPerm_inj p hp a b).mp h)
+    simp [hab, this]
+
+/-- **Reachable** (normal form): the target is a strided sub-lattice — possibly reaching outside, then
+to be padded — of the source with permuted axes: target axis `i` runs along source axis `p i`, in
+the same or the opposite direction (`st i < 0`), with `|st i|` source voxels per target voxel, and the
+target origin sits on the (possibly out-of-range) source voxel `first`.  Every chain of
+`permute_spatial_axes`, `flip_spatial`, indexing with slices of any non-zero stride and `pad` ends in
+such a geometry (`Chain.reachable`). -/
+def Reachable (src tgt : Geom) : Prop :=
+  ∃ (p : Ax → Ax) (first st : Ax → Int), isPerm p = true ∧ (∀ i, st i ≠ 0) ∧
+    tgt.dir = (sliceGeom (permuted src p) first st tgt.shape).dir ∧
+    tgt.spacing = (sliceGeom (permuted src p) first st tgt.shape).spacing ∧
+    tgt.pos = (sliceGeom (permuted src p) first st tgt.shape).pos ∧
+    tgt.cs = src.cs ∧ forConflict src tgt = false
+
+theorem matchAlign_reach (src tgt : Geom) (hwf : WF src) (tol : Rat) (h0 : 0 < tol) (h1 : tol ≤ 1)
+    (p : Ax → Ax) (first st : Ax → Int) (hst : ∀ i, st i ≠ 0)
+    (hdir : tgt.dir = (sliceGeom (permuted src p) first st tgt.shape).dir)
+    (hsp : tgt.spacing = (sliceGeom (permuted src p) first st tgt.shape).spacing) :
+    matchAlign src tgt tol = .ok (p, st) := by
+  unfold matchAlign
+  have h : ∀ i, alignAxis src (tgt.dir i) (tgt.spacing i) tol = .ok (p i, st i) := by
+    intro i
+    rw [hdir, hsp]
+    simp only [sliceGeom, permuted]
+    exact alignAxis_reach src hwf (p i) (st i) (hst i) tol h0 h1
+  rw [h 0, h 1, h 2]
+  simp only [mk3_eta]
+
+theorem permuted_id (g : Geom) (p : Ax → Ax) (h : requiresPermute p = false) : permuted g p = g := by
+  unfold requiresPermute at h
+  simp only [Bool.not_eq_false', Bool.and_eq_true, beq_iff_eq] at h
+  obtain ⟨⟨h0, h1⟩, h2⟩ := h
+  have hp : p = id := by
+    funext a; rcases ax_cases a with rfl | rfl | rfl <;> simp [h0, h1, h2]
+  subst hp
+  rfl
+
+theorem permute_step {α : Type} (src : Vol α) (p : Ax → Ax) (hp : isPerm p = true) :
+    ∃ nv, (if requiresPermute p then permute src p else .ok src) = .ok nv ∧ nv.geom = permuted src.geom p := by
+  by_cases hr : requiresPermute p = true
+  · rw [if_pos hr]
+    unfold permute
+    rw [permuteGeom_eq _ _ hp]
+    exact ⟨_, rfl, rfl⟩
+  · rw [if_neg hr]
+    exact ⟨src, rfl, (permuted_id _ _ (by simpa using hr)).symm⟩
+
+
+
+theorem planAxis_reach (G tgt : Geom) (hwf : WF G) (first st : Ax → Int) (hst : ∀ i, st i ≠ 0)
+    (hpos : tgt.pos = (sliceGeom G first st tgt.shape).pos) (hshape : ∀ i, 1 ≤ tgt.shape i)
+    (tol : Rat) (htol : 0 ≤ tol) (i : Ax) (rc rp : Bool) :
+    ∃ pl, planAxis G tgt (st i) tol i rc rp = .ok pl ∧ AxisOK pl (first i) (st i) (tgt.shape i) (G.shape i) rc rp := by
+  unfold planAxis
+  have hoff : V3.dot (G.dir i) (V3.sub tgt.pos G.pos) = ((first i : Int) : Rat) * G.spacing i := by
+    rw [hpos]
+    exact dot_toRef_sub G hwf (toRat first) i
+  rw [hoff]
+  obtain ⟨r, hr, hok⟩ := mgCropPad_axisOK (first i) (G.spacing i) (ne_of_gt (hwf.spacing_pos i)) (st i) (tgt.shape i)
+    (G.shape i) (hst i) (hshape i) tol htol rc rp
+  rw [hr]
+  exact ⟨_, rfl, hok⟩
+
+theorem matchPlan_reach (G tgt : Geom) (hwf : WF G) (first st : Ax → Int) (hst : ∀ i, st i ≠ 0)
+    (hpos : tgt.pos = (sliceGeom G first st tgt.shape).pos) (hshape : ∀ i, 1 ≤ tgt.shape i)
+    (tol : Rat) (htol : 0 ≤ tol) :
+    ∃ p0 p1 p2, matchPlan G tgt st tol = .ok (p0, p1, p2) ∧
+      AxisOK p0 (first 0) (st 0) (tgt.shape 0) (G.shape 0) false false ∧
+      AxisOK p1 (first 1) (st 1) (tgt.shape 1) (G.shape 1) p0.requiresCrop p0.requiresPad ∧
+      AxisOK p2 (first 2) (st 2) (tgt.shape 2) (G.shape 2) p1.requiresCrop p1.requiresPad := by
+  unfold matchPlan
+  obtain ⟨p0, h0, ok0⟩ := planAxis_reach G tgt hwf first st hst hpos hshape tol htol 0 false false
+  obtain ⟨p1, h1, ok1⟩ := planAxis_reach G tgt hwf first st hst hpos hshape tol htol 1 p0.requiresCrop p0.requiresPad
+  obtain ⟨p2, h2, ok2⟩ := planAxis_reach G tgt hwf first st hst hpos hshape tol htol 2 p1.requiresCrop p1.requiresPad
+  rw [h0]; simp only []; rw [h1]; simp only []; rw [h2]
+  exact ⟨p0, p1, p2, rfl, ok0, ok1, ok2⟩
+
+
+
+/-- the padded geometry (what `padGeom` returns for non-negative widths) -/
+def padded (G : Geom) (b a : Ax → Int) : Geom :=
+  { G with pos := G.toRef (fun x => -(b x : Rat)), shape := fun x => G.shape x + b x + a x }
+
+theorem padGeom_ok (G : Geom) (b a : Ax → Int) (hb : ∀ i, 0 ≤ b i) (ha : ∀ i, 0 ≤ a i) :
+    padGeom G b a = .ok (padded G b a) := by
+  unfold padGeom padded
+  have : ¬ ((decide (b 0 < 0) || decide (b 1 < 0) || decide (b 2 < 0) || decide (a 0 < 0) || decide (a 1 < 0) ||
+      decide (a 2 < 0)) = true) := by
+    have := hb 0; have := hb 1; have := hb 2; have := ha 0; have := ha 1; have := ha 2
+    simp; omega
+  rw [if_neg this]
+
+theorem padded_zero (G : Geom) (b a : Ax → Int) (hb : ∀ i, b i = 0) (ha : ∀ i, a i = 0) : padded G b a = G := by
+  obtain ⟨dir, spacing, pos, shape, cs, fr⟩ := G
+  simp only [padded, Geom.mk.injEq, true_and, and_true]
+  constructor
+  · apply V3.ext' <;> simp [Geom.toRef, Geom.col, V3.add, V3.smul, hb]
+  · funext x; simp [hb, ha]
+
+theorem getitemGeom_of_axes (G : Geom) (s : Ax → Sl) (first step size : Ax → Int)
+    (h : ∀ i, getitemAxis (s i) (G.shape i) = .ok (first i, step i, size i)) :
+    getitemGeom G s = .ok (sliceGeom G first step size, first, step) := by
+  unfold getitemGeom
+  rw [h 0, h 1, h 2]
+  simp only [mk3_eta]
+
+/-- what the pad / crop stage of `matchGeometry` returns for plans satisfying `AxisOK` -/
+theorem matchApply_reach {α : Type} (nv : Vol α) (c : α) (first st size : Ax → Int) (p0 p1 p2 : AxisPlan)
+    (ok0 : AxisOK p0 (first 0) (st 0) (size 0) (nv.geom.shape 0) false false)
+    (ok1 : AxisOK p1 (first 1) (st 1) (size 1) (nv.geom.shape 1) p0.requiresCrop p0.requiresPad)
+    (ok2 : AxisOK p2 (first 2) (st 2) (size 2) (nv.geom.shape 2) p1.requiresCrop p1.requiresPad) :
+    ∃ b a r, matchApply nv (p0, p1, p2) c = .ok r ∧
+      (r.geom = sliceGeom (padded nv.geom b a) (fun i => first i + b i) st size ∨
+       (r.geom = padded nv.geom b a ∧ ∀ i, first i + b i = 0 ∧ st i = 1 ∧ size i = nv.geom.shape i + b i + a i)) := by
+  refine ⟨mk3 p0.before p1.before p2.before, mk3 p0.after p1.after p2.after, ?_⟩
+  unfold matchApply
+  simp only []
+  have hb : ∀ i, 0 ≤ mk3 p0.before p1.before p2.before i := by
+    rw [forall_ax]; exact ⟨ok0.before_nonneg, ok1.before_nonneg, ok2.before_nonneg⟩
+  have ha : ∀ i, 0 ≤ mk3 p0.after p1.after p2.after i := by
+    rw [forall_ax]; exact ⟨ok0.after_nonneg, ok1.after_nonneg, ok2.after_nonneg⟩
+  -- pad stage
+  have hpadstage : ∃ nv1, (if p2.requiresPad then
+        pad nv (mk3 p0.before p1.before p2.before) (mk3 p0.after p1.after p2.after) c else .ok nv) = .ok nv1 ∧
+      nv1.geom = padded nv.geom (mk3 p0.before p1.before p2.before) (mk3 p0.after p1.after p2.after) := by
+    by_cases hrp : p2.requiresPad = true
+    · rw [if_pos hrp]
+      unfold pad
+      rw [padGeom_ok _ _ _ hb ha]
+      exact ⟨_, rfl, rfl⟩
+    · rw [if_neg hrp]
+      refine ⟨nv, rfl, (padded_zero _ _ _ ?_ ?_).symm⟩ <;>
+      · have f2 := ok2.pad_flag
+        have f1 := ok1.pad_flag
+        have f0 := ok0.pad_flag
+        have hrp' : p2.requiresPad = false := by simpa using hrp
+        rw [hrp'] at f2
+        simp only [Bool.false_eq, Bool.or_eq_false_iff, decide_eq_false_iff_not, not_or] at f2
+        rw [f2.2] at f1
+        simp only [Bool.false_eq, Bool.or_eq_false_iff, decide_eq_false_iff_not, not_or] at f1
+        rw [f1.2] at f0
+        simp only [Bool.false_eq, Bool.or_eq_false_iff, decide_eq_false_iff_not, not_or] at f0
+        have := ok0.before_nonneg; have := ok1.before_nonneg; have := ok2.before_nonneg
+        have := ok0.after_nonneg; have := ok1.after_nonneg; have := ok2.after_nonneg
+        rw [forall_ax]
+        simp only [mk3_0, mk3_1, mk3_2]
+        omega
+  obtain ⟨nv1, hnv1, hg1⟩ := hpadstage
+  rw [hnv1]
+  simp only []
+  by_cases hrc : p2.requiresCrop = true
+  · rw [if_pos hrc]
+    have hax : ∀ i, getitemAxis (mk3 p0.sl p1.sl p2.sl i) (nv1.geom.shape i) =
+        .ok (first i + mk3 p0.before p1.before p2.before i, st i, size i) := by
+      rw [hg1, forall_ax]
+      exact ⟨ok0.slice, ok1.slice, ok2.slice⟩
+    unfold getitem
+    rw [getitemGeom_of_axes _ _ _ _ _ hax]
+    exact ⟨_, rfl, Or.inl (by simp only [hg1])⟩
+  · rw [if_neg hrc]
+    refine ⟨_, rfl, Or.inr ⟨hg1, ?_⟩⟩
+    have hrc' : p2.requiresCrop = false := by simpa using hrc
+    obtain ⟨r1, e2⟩ := ok2.crop_flag hrc'
+    obtain ⟨r0, e1⟩ := ok1.crop_flag r1
+    obtain ⟨_, e0⟩ := ok0.crop_flag r0
+    rw [forall_ax]
+    exact ⟨e0, e1, e2⟩
+
+
+
+theorem entryWithin_self (t : Rat) (ht : 0 ≤ t) (a : Rat) : EntryWithin t a a := by
+  unfold EntryWithin
+  have h1 : rabs (a - a) = 0 := by rw [sub_self]; exact rabs_zero
+  have h2 := rabs_nonneg a
+  have h3 : (0 : Rat) ≤ rtolDefault := by unfold rtolDefault; norm_num
+  rw [h1]
+  have := mul_nonneg h3 h2
+  linarith
+
+theorem vecWithin_self (t : Rat) (ht : 0 ≤ t) (a : V3) : VecWithin t a a :=
+  ⟨entryWithin_self t ht _, entryWithin_self t ht _, entryWithin_self t ht _⟩
+
+theorem padded_toRef (G : Geom) (b a : Ax → Int) (x : Ax → Rat) :
+    (padded G b a).toRef x = G.toRef (fun i => x i - (b i : Rat)) := by
+  apply V3.ext' <;> simp only [padded, Geom.toRef, Geom.col, V3.add, V3.smul] <;> ring
+
+theorem tgt_col (G tgt : Geom) (first st : Ax → Int)
+    (hdir : tgt.dir = (sliceGeom G first st tgt.shape).dir)
+    (hsp : tgt.spacing = (sliceGeom G first st tgt.shape).spacing) (i : Ax) :
+    tgt.col i = V3.smul (st i : Rat) (G.col i) := by
+  have : tgt.col i = (sliceGeom G first st tgt.shape).col i := by
+    simp only [Geom.col]; rw [hdir, hsp]
+  rw [this, sliceGeom_col]
+
+theorem final_geom (G tgt R : Geom) (first st b a : Ax → Int)
+    (hdir : tgt.dir = (sliceGeom G first st tgt.shape).dir)
+    (hsp : tgt.spacing = (sliceGeom G first st tgt.shape).spacing)
+    (hpos : tgt.pos = (sliceGeom G first st tgt.shape).pos)
+    (hR : R = sliceGeom (padded G b a) (fun i => first i + b i) st tgt.shape ∨
+      (R = padded G b a ∧ ∀ i, first i + b i = 0 ∧ st i = 1 ∧ tgt.shape i = G.shape i + b i + a i)) :
+    (∀ i, R.col i = tgt.col i) ∧ R.pos = tgt.pos ∧ (∀ i, R.shape i = tgt.shape i) ∧ R.cs = G.cs ∧
+      R.frameOfRef = G.frameOfRef := by
+  have hpos' : tgt.pos = G.toRef (toRat first) := hpos
+  rcases hR with rfl | ⟨rfl, hid⟩
+  · refine ⟨fun i => ?_, ?_, fun _ => rfl, rfl, rfl⟩
+    · rw [tgt_col G tgt first st hdir hsp, sliceGeom_col]; rfl
+    · rw [hpos']
+      show (padded G b a).toRef (toRat fun i => first i + b i) = _
+      rw [padded_toRef]
+      congr 1
+      funext i
+      simp only [toRat]; push_cast; ring
+  · refine ⟨fun i => ?_, ?_, fun i => (hid i).2.2.symm, rfl, rfl⟩
+    · rw [tgt_col G tgt first st hdir hsp, (hid i).2.1]
+      apply V3.ext' <;> simp [padded, Geom.col, V3.smul]
+    · rw [hpos']
+      show G.toRef (fun x => -(b x : Rat)) = _
+      congr 1
+      funext i
+      have := (hid i).1
+      simp only [toRat]
+      have h : first i = -(b i) := by omega
+      rw [h]; push_cast; ring
+
+theorem forConflict_false_iff (g h : Geom) : forConflict g h = false ↔ NoForConflict g h := by
+  unfold forConflict NoForConflict
+  rcases g.frameOfRef with _ | u <;> rcases h.frameOfRef with _ | v <;> simp
+
+/-- **completeness in normal form** -/
+theorem matchGeometry_complete {α : Type} (src : Vol α) (tgt : Geom) (tol : Rat) (c : α)
+    (hwf : WF src.geom) (hshape : ∀ i, 1 ≤ tgt.shape i) (h0 : 0 < tol) (h1 : tol ≤ 1)
+    (hr : Reachable src.geom tgt) :
+    ∃ r, matchGeometry src tgt tol c = .ok r ∧ (∀ i, r.geom.col i = tgt.col i) ∧ r.geom.pos = tgt.pos ∧
+      (∀ i, r.geom.shape i = tgt.shape i) := by
+  obtain ⟨p, first, st, hp, hst, hdir, hsp, hpos, hcs, hfor⟩ := hr
+  unfold matchGeometry
+  have hf : ¬ (forConflict src.geom tgt = true) := by simp [hfor]
+  have hc : ¬ ((src.geom.cs != tgt.cs) = true) := by simp [hcs]
+  rw [if_neg hf, if_neg hc, matchAlign_reach src.geom tgt hwf tol h0 h1 p first st hst hdir hsp]
+  simp only []
+  obtain ⟨nv, hnv, hg⟩ := permute_step src p hp
+  rw [hnv]
+  simp only []
+  obtain ⟨p0, p1, p2, hpl, ok0, ok1, ok2⟩ := matchPlan_reach (permuted src.geom p) tgt (hwf.permuted p hp) first st hst
+    hpos hshape tol (le_of_lt h0)
+  rw [hg, hpl]
+  simp only []
+  rw [← hg] at ok0 ok1 ok2
+  obtain ⟨b, a, r, hap, hR⟩ := matchApply_reach nv c first st tgt.shape p0 p1 p2 ok0 ok1 ok2
+  rw [hap]
+  simp only []
+  rw [hg] at hR
+  obtain ⟨hcol, hposR, hshapeR, hcsR, hforR⟩ := final_geom (permuted src.geom p) tgt r.geom first st b a hdir hsp hpos hR
+  have hge : geometryEqual r.geom tgt (some tol) = .ok true := by
+    rw [geometryEqual_true_iff]
+    refine ⟨hshapeR, ?_, ?_, ?_, ?_⟩
+    · rw [hcsR, hcs]; rfl
+    · have := (forConflict_false_iff src.geom tgt).mp hfor
+      intro u v hu hv
+      rw [hforR] at hu
+      exact this u v hu hv
+    · intro i; rw [hcol i]; exact vecWithin_self tol (le_of_lt h0) _
+    · rw [hposR]; exact vecWithin_self tol (le_of_lt h0) _
+  rw [hge]
+  exact ⟨r, rfl, hcol, hposR, hshapeR⟩
+
+
+/-! ## chains of operations end in the normal form -/
+
+
+/-- one step of the library that changes a geometry without resampling: `permute_spatial_axes`,
+`pad`, or indexing with three slices (crop of a prefix / suffix / interior, any non-zero stride;
+a negative stride is a flip) -/
+inductive GeomOp : Geom → Geom → Prop
+  | permute (g g' : Geom) (p : Ax → Ax) (h : permuteGeom g p = .ok g') : GeomOp g g'
+  | pad (g g' : Geom) (b a : Ax → Int) (h : padGeom g b a = .ok g') : GeomOp g g'
+  | index (g g' : Geom) (s : Ax → Sl) (first step : Ax → Int) (h : getitemGeom g s = .ok (g', first, step)) : GeomOp g g'
+
+/-- a finite chain of such steps -/
+inductive Chain : Geom → Geom → Prop
+  | refl (g : Geom) : Chain g g
+  | step {g h h' : Geom} (c : Chain g h) (o : GeomOp h h') : Chain g h'
+
+/-- invariant of a chain (implies `Reachable`) -/
+def NormalForm (src tgt : Geom) : Prop :=
+  ∃ (p : Ax → Ax) (first st : Ax → Int), isPerm p = true ∧ (∀ i, st i ≠ 0) ∧
+    tgt.dir = (sliceGeom (permuted src p) first st tgt.shape).dir ∧
+    tgt.spacing = (sliceGeom (permuted src p) first st tgt.shape).spacing ∧
+    tgt.pos = (sliceGeom (permuted src p) first st tgt.shape).pos ∧
+    tgt.cs = src.cs ∧ tgt.frameOfRef = src.frameOfRef
+
+theorem NormalForm.reachable {src tgt : Geom} (h : NormalForm src tgt) : Reachable src tgt := by
+  obtain ⟨p, first, st, hp, hst, hd, hs, hpos, hcs, hf⟩ := h
+  refine ⟨p, first, st, hp, hst, hd, hs, hpos, hcs, ?_⟩
+  unfold forConflict
+  rw [hf]
+  rcases src.frameOfRef with _ | u <;> simp
+
+theorem toRef_congr (g h : Geom) (hd : g.dir = h.dir) (hs : g.spacing = h.spacing) (hp : g.pos = h.pos)
+    (x : Ax → Rat) : g.toRef x = h.toRef x := by
+  simp only [Geom.toRef, Geom.col, hd, hs, hp]
+
+theorem sliceGeom_toRef_rat (g : Geom) (first step size : Ax → Int) (x : Ax → Rat) :
+    (sliceGeom g first step size).toRef x = g.toRef (fun a => (first a : Rat) + (step a : Rat) * x a) := by
+  have hpos : (sliceGeom g first step size).pos = g.toRef (toRat first) := rfl
+  unfold Geom.toRef
+  rw [sliceGeom_col, sliceGeom_col, sliceGeom_col, hpos]
+  unfold Geom.toRef
+  apply V3.ext' <;> simp only [V3.add, V3.smul, toRat] <;> ring
+
+theorem isPerm_id : isPerm (id : Ax → Ax) = true := by decide
+
+theorem isPerm_comp (p q : Ax → Ax) (hp : isPerm p = true) (hq : isPerm q = true) : isPerm (p ∘ q) = true := by
+  rcases isPerm_cases p hp with ⟨h0, h1, h2⟩ | ⟨h0, h1, h2⟩ | ⟨h0, h1, h2⟩ | ⟨h0, h1, h2⟩ | ⟨h0, h1, h2⟩ | ⟨h0, h1, h2⟩ <;>
+    rcases isPerm_cases q hq with ⟨k0, k1, k2⟩ | ⟨k0, k1, k2⟩ | ⟨k0, k1, k2⟩ | ⟨k0, k1, k2⟩ | ⟨k0, k1, k2⟩ | ⟨k0, k1, k2⟩ <;>
+    simp [isPerm, Function.comp, h0, h1, h2, k0, k1, k2]
+
+theorem permuted_toRef (G : Geom) (q : Ax → Ax) (hq : isPerm q = true) (x : Ax → Rat) :
+    (permuted G q).toRef (fun i => x (q i)) = G.toRef x := by
+  rcases isPerm_cases q hq with ⟨k0, k1, k2⟩ | ⟨k0, k1, k2⟩ | ⟨k0, k1, k2⟩ | ⟨k0, k1, k2⟩ | ⟨k0, k1, k2⟩ | ⟨k0, k1, k2⟩ <;>
+    apply V3.ext' <;> simp only [permuted, Geom.toRef, Geom.col, V3.add, V3.smul, k0, k1, k2] <;> ring
+
+theorem NormalForm.refl (g : Geom) : NormalForm g g := by
+  refine ⟨id, fun _ => 0, fun _ => 1, isPerm_id, fun _ => Int.one_ne_zero, ?_, ?_, ?_, rfl, rfl⟩
+  · funext i; simp [sliceGeom, permuted]
+  · funext i; simp [sliceGeom, permuted]
+  · show g.pos = (permuted g id).toRef (toRat fun _ => 0)
+    apply V3.ext' <;> simp [permuted, Geom.toRef, Geom.col, toRat, V3.add, V3.smul]
+
+theorem neg_neg' (d : V3) : V3.neg (V3.neg d) = d := by
+  apply V3.ext' <;> simp [V3.neg]
+
+theorem NormalForm.step {src g g' : Geom} (h : NormalForm src g) (o : GeomOp g g') : NormalForm src g' := by
+  obtain ⟨p, first, st, hp, hst, hd, hs, hpos, hcs, hf⟩ := h
+  have href : ∀ x : Ax → Rat, g.toRef x = (permuted src p).toRef (fun a => (first a : Rat) + (st a : Rat) * x a) := by
+    intro x
+    rw [toRef_congr g _ hd hs hpos x, sliceGeom_toRef_rat]
+  cases o with
+  | permute q hq =>
+    have hqp : isPerm q = true := by
+      by_contra hc; unfold permuteGeom at hq; simp [hc] at hq
+    rw [permuteGeom_eq _ _ hqp] at hq
+    injection hq with hq
+    subst hq
+    refine ⟨p ∘ q, fun i => first (q i), fun i => st (q i), isPerm_comp p q hp hqp, fun i => hst (q i), ?_, ?_, ?_, hcs, hf⟩
+    · funext i
+      show g.dir (q i) = _
+      rw [hd]; rfl
+    · funext i
+      show g.spacing (q i) = _
+      rw [hs]; rfl
+    · show g.pos = (permuted src (p ∘ q)).toRef (toRat fun i => first (q i))
+      rw [hpos]
+      show (permuted src p).toRef (toRat first) = _
+      have := permuted_toRef (permuted src p) q hqp (toRat first)
+      rw [← this]
+      rfl
+  | pad b a hpad =>
+    have hg' : g'.dir = g.dir ∧ g'.spacing = g.spacing ∧ g'.pos = g.toRef (fun x => -(b x : Rat)) ∧ g'.cs = g.cs ∧
+        g'.frameOfRef = g.frameOfRef := by
+      unfold padGeom at hpad
+      split at hpad
+      · cases hpad
+      · injection hpad with hpad; subst hpad; exact ⟨rfl, rfl, rfl, rfl, rfl⟩
+    obtain ⟨e1, e2, e3, e4, e5⟩ := hg'
+    refine ⟨p, fun i => first i - st i * b i, st, hp, hst, ?_, ?_, ?_, by rw [e4, hcs], by rw [e5, hf]⟩
+    · rw [e1, hd]; rfl
+    · rw [e2, hs]; rfl
+    · rw [e3, href]
+      show _ = (permuted src p).toRef (toRat fun i => first i - st i * b i)
+      congr 1
+      funext i
+      simp only [toRat]; push_cast; ring
+  | index s f2 s2 hidx =>
+    obtain ⟨size, hgeom, hax⟩ := getitemGeom_ok _ _ _ _ _ hidx
+    have hs2 : ∀ i, s2 i ≠ 0 := fun i => (getitemAxis_range _ _ _ _ _ (hax i)).2.1
+    subst hgeom
+    refine ⟨p, fun i => first i + st i * f2 i, fun i => st i * s2 i, hp, fun i => Int.mul_ne_zero (hst i) (hs2 i),
+      ?_, ?_, ?_, hcs, hf⟩
+    · funext i
+      show (if s2 i < 0 then V3.neg (g.dir i) else g.dir i) =
+        (if st i * s2 i < 0 then V3.neg (src.dir (p i)) else src.dir (p i))
+      rw [hd]
+      show (if s2 i < 0 then V3.neg (if st i < 0 then V3.neg (src.dir (p i)) else src.dir (p i))
+        else (if st i < 0 then V3.neg (src.dir (p i)) else src.dir (p i))) = _
+      have h1 := hst i
+      have h2 := hs2 i
+      by_cases a1 : st i < 0 <;> by_cases a2 : s2 i < 0
+      · have : ¬ (st i * s2 i < 0) := not_lt.mpr (le_of_lt (Int.mul_pos_of_neg_of_neg a1 a2))
+        simp [a1, a2, this, neg_neg']
+      · have : st i * s2 i < 0 := Int.mul_neg_of_neg_of_pos a1 (by omega)
+        simp [a1, a2, this]
+      · have : st i * s2 i < 0 := Int.mul_neg_of_pos_of_neg (by omega) a2
+        simp [a1, a2, this]
+      · have : ¬ (st i * s2 i < 0) := not_lt.mpr (le_of_lt (Int.mul_pos (by omega) (by omega)))
+        simp [a1, a2, this]
+    · funext i
+      show g.spacing i * (((s2 i).natAbs : Int) : Rat) = src.spacing (p i) * (((st i * s2 i).natAbs : Int) : Rat)
+      rw [hs]
+      show src.spacing (p i) * (((st i).natAbs : Int) : Rat) * (((s2 i).natAbs : Int) : Rat) = _
+      rw [Int.natAbs_mul]; push_cast; ring
+    · show g.toRef (toRat f2) = (permuted src p).toRef (toRat fun i => first i + st i * f2 i)
+      rw [href]
+      congr 1
+      funext i
+      simp only [toRat]; push_cast; ring
+
+theorem Chain.normalForm {src tgt : Geom} (h : Chain src tgt) : NormalForm src tgt := by
+  induction h with
+  | refl => exact NormalForm.refl _
+  | step _ o ih => exact ih.step o
+
+
+theorem Chain.shape_pos {src tgt : Geom} (h : Chain src tgt) (hs : ∀ i, 1 ≤ src.shape i) : ∀ i, 1 ≤ tgt.shape i := by
+  induction h with
+  | refl => exact hs
+  | step _ o ih =>
+    cases o with
+    | permute q hq =>
+      have hqp : isPerm q = true := by
+        by_contra hc; unfold permuteGeom at hq; simp [hc] at hq
+      rw [permuteGeom_eq _ _ hqp] at hq
+      injection hq with hq
+      subst hq
+      intro i; exact ih (q i)
+    | pad b a hpad =>
+      unfold padGeom at hpad
+      split at hpad
+      · cases hpad
+      · rename_i hneg
+        injection hpad with hpad
+        subst hpad
+        simp only [Bool.or_eq_true, decide_eq_true_eq, not_or, not_lt] at hneg
+        intro i
+        have := ih i
+        show 1 ≤ _ + b i + a i
+        rcases ax_cases i with rfl | rfl | rfl <;> omega
+    | index s f2 s2 hidx =>
+      obtain ⟨size, hgeom, hax⟩ := getitemGeom_ok _ _ _ _ _ hidx
+      subst hgeom
+      intro i
+      exact (getitemAxis_range _ _ _ _ _ (hax i)).2.2.1
 
 end HdVerif.Match
